@@ -14,3 +14,13 @@ package syncx
 //@   trusted
 //@   ensures adVal[d] == val
 //@   modifies adVal[d]
+
+//@ ghost var abVal map[*AtomicBool]bool
+//@ func (b *AtomicBool) Set
+//@   trusted
+//@   ensures abVal[b] == v
+//@   modifies abVal[b]
+//@ func (b *AtomicBool) True
+//@   trusted
+//@   ensures result == abVal[b]
+//@   modifies nothing
